@@ -21,6 +21,10 @@ ANCHORS = [  # (module, substring, action name)
     ("BPTK_Py.bptk", 'step = self.session_state["step"]', "R"),
     ("BPTK_Py.bptk", 'self.session_state["step"]=', "W"),
 ]
+SAVE_ANCHORS = [  # externalising the session (only reached on a server with an external state adapter)
+    ("BPTK_Py.server.bptkServer", "session_state = copy.deepcopy(instance['instance'].session_state)", "S"),
+    ("BPTK_Py.externalstateadapter.externalStateAdapter", 'path = os.path.join(self.path, str(state.instance_id) + ".json")', "P"),
+]
 INTERNAL = {"try_lock"}          # functions of BPTK_Py.bptk whose execution is scheduled line by line
 _tls = threading.local()         # .worker: the Worker a request thread belongs to
 _RealLock = threading.Lock
@@ -206,17 +210,20 @@ class Worker:
     def _local_trace(self, frame, event, arg):
         if event == "line":
             act = self.ctl.amap.get((frame.f_code.co_filename, frame.f_lineno))
-            if act is not None and (self.ctl.park_filter is None or self.ctl.park_filter(frame)):
+            if act is not None and not self.gated and (self.ctl.park_filter is None or self.ctl.park_filter(frame)):
                 self._park(act)
         return self._local_trace
 
 
 class Controller:
-    def __init__(self, probe, anchors=None, required=None, park_filter=None, internal=None):
-        """internal: [(module, function name)] whose execution is scheduled line by line (default for the lock protocol of the
+    def __init__(self, probe, anchors=None, required=None, park_filter=None, internal=None, extra_anchors=None):
+        """extra_anchors: further anchor lines next to the default ones (e.g. SAVE_ANCHORS);
+        internal: [(module, function name)] whose execution is scheduled line by line (default for the lock protocol of the
         server: bptk.try_lock)"""
         self.park_filter = park_filter
         self.amap = anchor_map(anchors, required)
+        if extra_anchors:
+            self.amap.update(anchor_map(extra_anchors, required=set()))
         self.files = {fn for fn, _ in self.amap}
         if internal is None:
             internal = [("BPTK_Py.bptk", name) for name in INTERNAL] if anchors is None else []
@@ -310,7 +317,7 @@ class Controller:
             self.events.append({"r": rid, "act": "R", "lock": lock, "clock": clock})
             self.events.append({"r": rid, "act": "W", "lock": lock, "clock": clock})
         else:
-            if act == "U" and self._last_act.get(rid) in ("W", "T", "K") and rid not in self.no_loop:
+            if act in ("U", "S") and self._last_act.get(rid) in ("W", "T", "K") and rid not in self.no_loop:
                 # the loop-exit test has no anchor of its own (for / while condition): the spec's Read with More = FALSE
                 self.events.append({"r": rid, "act": "R", "lock": self._last_state[0], "clock": self._last_state[1]})
             self.events.append({"r": rid, "act": act, "lock": lock, "clock": clock})
